@@ -594,7 +594,7 @@ class Sample:
         for pos, cov in norm.items():
             if len(cov) == 0:
                 continue
-            coverage.setdefault(pos, {})["_"] = cov
+            coverage.setdefault(pos, {})["_"] = list(cov)  # copy: norm is dumped later
         bounds = min(self.gene.chr_to_ref), max(self.gene.chr_to_ref)
         for (pos, mut), cov in muts.items():
             if pos not in coverage:
